@@ -23,11 +23,25 @@ pub struct NetCfg {
     pub drop_ppm: u64,
     pub dup_ppm: u64,
     pub corrupt_ppm: u64,
+    /// a copy of the datagram is delivered again much later (up to replay_max_ns after the original):
+    /// a stale datagram from an earlier epoch of the sender, the receiver or both
+    #[serde(default)]
+    pub replay_ppm: u64,
+    #[serde(default)]
+    pub replay_max_ns: u64,
+    /// the datagram reaches a different node than the one it was sent to (possibly its own sender)
+    #[serde(default)]
+    pub misdeliver_ppm: u64,
+    /// a single datagram is held back for up to spike_max_ns on top of its latency
+    #[serde(default)]
+    pub spike_ppm: u64,
+    #[serde(default)]
+    pub spike_max_ns: u64,
 }
 
 impl NetCfg {
     pub fn clean(lat_min_ns: u64, lat_max_ns: u64) -> Self {
-        NetCfg { lat_min_ns, lat_max_ns, drop_ppm: 0, dup_ppm: 0, corrupt_ppm: 0 }
+        NetCfg { lat_min_ns, lat_max_ns, drop_ppm: 0, dup_ppm: 0, corrupt_ppm: 0, replay_ppm: 0, replay_max_ns: 0, misdeliver_ppm: 0, spike_ppm: 0, spike_max_ns: 0 }
     }
 }
 
@@ -341,13 +355,23 @@ impl World {
             }
             return;
         }
-        let net = &self.wc.net;
+        let net = self.wc.net.clone();
         if net.drop_ppm > 0 && draw(self.seed, mix3(name_hash("drop"), link, 0), k) % 1_000_000 < net.drop_ppm {
             self.stats.inc("fault_drop_random");
             return;
         }
         let span = net.lat_max_ns - net.lat_min_ns + 1;
-        let lat = net.lat_min_ns + draw(self.seed, mix3(name_hash("lat"), link, 0), k) % span;
+        let mut lat = net.lat_min_ns + draw(self.seed, mix3(name_hash("lat"), link, 0), k) % span;
+        if net.spike_ppm > 0 && net.spike_max_ns > 0 && draw(self.seed, mix3(name_hash("spike"), link, 0), k) % 1_000_000 < net.spike_ppm {
+            lat += draw(self.seed, mix3(name_hash("spike-len"), link, 0), k) % net.spike_max_ns;
+            self.stats.inc("fault_delay_spike");
+        }
+        let mut to = to;
+        if net.misdeliver_ppm > 0 && n > 1 && draw(self.seed, mix3(name_hash("misdeliver"), link, 0), k) % 1_000_000 < net.misdeliver_ppm {
+            let other = 1 + (draw(self.seed, mix3(name_hash("misdeliver-to"), link, 0), k) % (n as u64 - 1)) as u16;
+            to.addr = if other >= to.addr { other + 1 } else { other };
+            self.stats.inc("fault_misdelivery");
+        }
         let mut payload = data;
         let mut damaged = false;
         if net.corrupt_ppm > 0 && draw(self.seed, mix3(name_hash("corrupt"), link, 0), k) % 1_000_000 < net.corrupt_ppm && !payload.is_empty() {
@@ -370,6 +394,11 @@ impl World {
             let lat2 = net.lat_min_ns + draw(self.seed, mix3(name_hash("lat-dup"), link, 0), k) % span;
             self.stats.inc("fault_duplicate");
             self.push(self.now + lat + lat2, EvKind::Deliver { to_addr: to.addr, from_addr: from, data: payload.clone(), idx, damaged });
+        }
+        if net.replay_ppm > 0 && net.replay_max_ns > 0 && draw(self.seed, mix3(name_hash("replay"), link, 0), k) % 1_000_000 < net.replay_ppm {
+            let later = draw(self.seed, mix3(name_hash("replay-after"), link, 0), k) % net.replay_max_ns;
+            self.stats.inc("fault_late_replay");
+            self.push(self.now + lat + later, EvKind::Deliver { to_addr: to.addr, from_addr: from, data: payload.clone(), idx, damaged });
         }
         self.push(self.now + lat, EvKind::Deliver { to_addr: to.addr, from_addr: from, data: payload, idx, damaged });
     }
